@@ -5,3 +5,4 @@ import MtailVerif.Props.C16
 #print axioms MtailVerif.C16.stopped_history_exact
 #print axioms MtailVerif.C16.buffer_shape
 #print axioms MtailVerif.C16.every_read_is_offered_room
+#print axioms MtailVerif.C16.streams_skeletons
